@@ -84,7 +84,8 @@ def dpm(ipeak, momsin, momcos):
         return np.nan
     else:
         dpm = np.arctan2(momsin[ipeak], momcos[ipeak])
-        return np.float32((270 - R2D * dpm) % 360.0)
+        # Wrap again after rounding to float32 (359.99999... rounds up to 360.0)
+        return np.float32((270 - R2D * dpm) % 360.0) % np.float32(360.0)
 
 
 def dp(ipeak, dir):
